@@ -2,6 +2,7 @@ package reqresp
 
 import (
 	"bytes"
+	"math"
 	"errors"
 	"fmt"
 	"os"
@@ -18,9 +19,11 @@ import (
 	pcommon "github.com/blinklabs-io/gouroboros/protocol/common"
 	"github.com/blinklabs-io/gouroboros/protocol/localstatequery"
 	"github.com/blinklabs-io/gouroboros/protocol/localtxsubmission"
+	"github.com/blinklabs-io/gouroboros/protocol/peersharing"
 	"pgregory.net/rapid"
 
 	"verif/harness/internal/evi"
+	"verif/harness/internal/rawpeer"
 	"verif/harness/internal/xcbor"
 )
 
@@ -59,17 +62,46 @@ type c25Call struct {
 	tag    int64 // ltxsub: tag of the submitted blob; lsq acquireP: slot
 	got    any
 	hung   bool
+	// ret is the object the API returned, kept untouched to the end of the
+	// history; snap is a deep copy taken at return time (every other call
+	// overwrites the returned object instead: the caller owns it)
+	ret, snap any
+}
+
+func scribbleBytes(b []byte) {
+	for i := range b {
+		b[i] = 0x5A
+	}
 }
 
 type c25History struct {
-	Family   string    `json:"family"` // ntc | ntn
+	Family   string    `json:"family"` // ntc | ntn | lsqraw
 	Prologue []c25Op   `json:"prologue,omitempty"`
 	Workers  [][]c25Op `json:"workers"`
+	// Base / Top: special values of the integer stamps (see srvLog)
+	Base int64 `json:"base,omitempty"`
+	Top  bool  `json:"top,omitempty"`
+	// SlowKind (ntc): the first query of that kind is answered only after the
+	// client's (shortened) query timeout has expired; the other callers queue behind it
+	SlowKind string `json:"slow_kind,omitempty"`
 }
+
+var c25Bases = []int64{0, 0, 0, 7, 250, 65530, 1<<31 - 4, 1<<32 - 4, 1 << 53, 1<<62 - 1000}
+
+const (
+	slowTimeout = 150 * time.Millisecond
+	slowDelay   = 450 * time.Millisecond
+)
 
 func (h c25History) desc() string {
 	var sb strings.Builder
 	sb.WriteString(h.Family)
+	if h.Base != 0 || h.Top {
+		fmt.Fprintf(&sb, " base=%d top=%v", h.Base, h.Top)
+	}
+	if h.SlowKind != "" {
+		sb.WriteString(" slow=" + h.SlowKind)
+	}
 	if len(h.Prologue) > 0 {
 		sb.WriteString(" pre[")
 		for i, o := range h.Prologue {
@@ -137,6 +169,12 @@ func genNtC(rt *rapid.T, maxOps int, allowFailAcquire bool) c25History {
 		}
 	}
 	lsqOwner, monOwner := 0, 1%g
+	lastHas := 0
+	h.Base = rapid.SampledFrom(c25Bases).Draw(rt, "stamp_base")
+	h.Top = rapid.IntRange(0, 3).Draw(rt, "stamp_top") == 0
+	if has("lsq") && g <= 4 && rapid.IntRange(0, 119).Draw(rt, "slow_query") == 0 {
+		h.SlowKind = rapid.SampledFrom(lsqQueries).Draw(rt, "slow_kind")
+	}
 	lsqSince := lsqAcq // the owner knows the client is acquired
 	monSince := false
 	h.Workers = make([][]c25Op, g)
@@ -177,9 +215,15 @@ func genNtC(rt *rapid.T, maxOps int, allowFailAcquire bool) c25History {
 					o = c25Op{Proto: "txmon", Kind: "nexttx"}
 				case c <= 8:
 					a := rapid.IntRange(1, 6).Draw(rt, "hastx_s")*4 + rapid.IntRange(0, 2).Draw(rt, "hastx_i")
-					if rapid.IntRange(0, 7).Draw(rt, "hastx_unknown") == 0 {
-						a = -a
+					switch rapid.IntRange(0, 9).Draw(rt, "hastx_variant") {
+					case 0:
+						a = rapid.SampledFrom([]int{-1, -2, -3, -7}).Draw(rt, "hastx_special") // all-zero, empty, unknown ids
+					case 1, 2, 3:
+						if lastHas != 0 {
+							a = lastHas // the same id again, possibly in another snapshot
+						}
 					}
+					lastHas = a
 					o = c25Op{Proto: "txmon", Kind: "hastx", Arg: a}
 				default:
 					o = c25Op{Proto: "txmon", Kind: "sizes"}
@@ -209,6 +253,8 @@ var allowImmutable = false
 // send a query from the idle state: an error, nothing to judge).
 func genLsqRaw(rt *rapid.T, maxOps int) c25History {
 	h := c25History{Family: "lsqraw"}
+	h.Base = rapid.SampledFrom(c25Bases).Draw(rt, "stamp_base")
+	h.Top = rapid.IntRange(0, 3).Draw(rt, "stamp_top") == 0
 	g := rapid.SampledFrom([]int{1, 1, 2, 3, 4}).Draw(rt, "goroutines")
 	h.Workers = make([][]c25Op, g)
 	known := true // the owner knows whether the client is acquired (single goroutine, or prologue)
@@ -294,7 +340,11 @@ func genNtN(rt *rapid.T, maxOps int, maxG int) c25History {
 	for w := 0; w < g; w++ {
 		n := rapid.IntRange(1, maxOps).Draw(rt, "n_ops")
 		for i := 0; i < n; i++ {
-			h.Workers[w] = append(h.Workers[w], c25Op{Proto: "psh", Kind: "getpeers", Arg: rapid.IntRange(1, 200).Draw(rt, "amount")})
+			amount := rapid.IntRange(0, 255).Draw(rt, "amount")
+			if rapid.IntRange(0, 2).Draw(rt, "amount_special") == 0 {
+				amount = rapid.SampledFrom([]int{0, 0, 1, 4, 8, 254, 255}).Draw(rt, "amount_edge")
+			}
+			h.Workers[w] = append(h.Workers[w], c25Op{Proto: "psh", Kind: "getpeers", Arg: amount})
 		}
 	}
 	return h
@@ -341,9 +391,15 @@ func (c *c25Case) perform(oc *ouroboros.Connection, call *c25Call) {
 			err = cl.AcquireImmutableTip()
 		case "acquireP":
 			call.tag = 5000 + c.slotSeq.Add(1)
-			pt := pcommon.NewPoint(uint64(call.tag), lsqPointHash(o.Arg, uint64(call.tag)))
+			slot := uint64(call.tag)
+			if c.log.top {
+				slot = math.MaxUint64 - uint64(call.tag) // points at the top of the slot range
+				call.tag = int64(slot)
+			}
+			pt := pcommon.NewPoint(slot, lsqPointHash(o.Arg, slot))
 			call.Start = c.clk.tick()
 			err = cl.Acquire(&pt)
+			scribbleBytes(pt.Hash) // the caller re-uses its buffer
 		case "release":
 			call.Start = c.clk.tick()
 			err = cl.Release()
@@ -351,13 +407,13 @@ func (c *c25Case) perform(oc *ouroboros.Connection, call *c25Call) {
 			call.Start = c.clk.tick()
 			var v int
 			v, err = cl.GetCurrentEra()
-			call.Serial = int64(v)
+			call.Serial = c.log.unstamp("era", uint64(v))
 		case "start":
 			call.Start = c.clk.tick()
 			var v *localstatequery.SystemStartResult
 			v, err = cl.GetSystemStart()
 			if err == nil && v != nil {
-				call.Serial = v.Year.Int64()
+				call.Serial = c.log.unstamp("start", v.Year.Uint64())
 				call.Val = fmt.Sprintf("day=%d pico=%s", v.Day, v.Picoseconds.String())
 				if int64(v.Day) != call.Serial%366 || v.Picoseconds.Int64() != call.Serial*7 {
 					call.Val += " INCONSISTENT"
@@ -367,22 +423,28 @@ func (c *c25Case) perform(oc *ouroboros.Connection, call *c25Call) {
 			call.Start = c.clk.tick()
 			var v int64
 			v, err = cl.GetChainBlockNo()
-			call.Serial = v
+			call.Serial = c.log.unstamp("blockno", uint64(v))
 		case "point":
 			call.Start = c.clk.tick()
 			var v *pcommon.Point
 			v, err = cl.GetChainPoint()
 			if err == nil && v != nil {
-				call.Serial = int64(v.Slot)
-				if !bytes.Equal(v.Hash, lsqPointHash(9, v.Slot)) {
+				call.Serial = c.log.unstamp("point", v.Slot)
+				if !bytes.Equal(v.Hash, lsqPointHash(9, uint64(call.Serial))) {
 					call.Val = fmt.Sprintf("hash=%x INCONSISTENT", v.Hash)
+				}
+				if call.I%2 == 0 {
+					call.ret, call.snap = v, pcommon.NewPoint(v.Slot, append([]byte(nil), v.Hash...))
+				} else {
+					scribbleBytes(v.Hash)
+					v.Slot = 0
 				}
 			}
 		case "epoch":
 			call.Start = c.clk.tick()
 			var v int
 			v, err = cl.GetEpochNo()
-			call.Serial = int64(v)
+			call.Serial = c.log.unstamp("epoch", uint64(v))
 		case "history":
 			call.Start = c.clk.tick()
 			var v []localstatequery.EraHistoryResult
@@ -391,7 +453,7 @@ func (c *c25Case) perform(oc *ouroboros.Connection, call *c25Call) {
 				if len(v) != 1 {
 					call.Val = fmt.Sprintf("len=%d INCONSISTENT", len(v))
 				} else {
-					call.Serial = int64(v[0].Begin.SlotNo)
+					call.Serial = c.log.unstamp("history", uint64(v[0].Begin.SlotNo))
 					if v[0].End.SlotNo != v[0].Begin.SlotNo+1 || v[0].Begin.EpochNo != v[0].Begin.SlotNo {
 						call.Val = fmt.Sprintf("%+v INCONSISTENT", v[0])
 					}
@@ -412,14 +474,23 @@ func (c *c25Case) perform(oc *ouroboros.Connection, call *c25Call) {
 			call.Start = c.clk.tick()
 			var v bool
 			v, err = cl.HasTx(id)
+			scribbleBytes(id) // the caller re-uses its buffer
 			call.got = v
 			call.Val = fmt.Sprint(v)
 		case "nexttx":
 			call.Start = c.clk.tick()
 			var v []byte
 			v, err = cl.NextTx()
-			call.got = v
+			call.got = append([]byte(nil), v...)
+			if v == nil {
+				call.got = []byte(nil)
+			}
 			call.Val = fmt.Sprintf("%d bytes", len(v))
+			if call.I%2 == 0 {
+				call.ret, call.snap = v, call.got
+			} else {
+				scribbleBytes(v)
+			}
 		case "sizes":
 			call.Start = c.clk.tick()
 			var a, b, n uint32
@@ -433,6 +504,7 @@ func (c *c25Case) perform(oc *ouroboros.Connection, call *c25Call) {
 		blob := ltxBlob(call.tag, o.Arg == 1)
 		call.Start = c.clk.tick()
 		err = cl.SubmitTx(conwayEra, blob)
+		scribbleBytes(blob) // the caller re-uses its buffer
 		var rej localtxsubmission.TransactionRejectedError
 		if errors.As(err, &rej) {
 			call.Val = "rejected"
@@ -464,13 +536,32 @@ func (c *c25Case) perform(oc *ouroboros.Connection, call *c25Call) {
 				parts = append(parts, fmt.Sprintf("%s:%d", p.IP.String(), p.Port))
 			}
 			call.Val = strings.Join(parts, ",")
-			if len(peers) > 0 {
-				ip := peers[0].IP.To4()
+			var cp []string
+			for i, p := range peers {
+				ip := p.IP.To4()
+				var ser int64 = -1
 				if ip != nil && ip[0] == 10 {
-					call.Serial = int64(ip[1])<<16 | int64(ip[2])<<8 | int64(ip[3])
+					ser = int64(ip[1])<<16 | int64(ip[2])<<8 | int64(ip[3])
+				}
+				if i == 0 {
+					call.Serial = ser
+				} else if ser != call.Serial {
+					call.Val += " INCONSISTENT"
+				}
+				if int(p.Port) != 1000+o.Arg+256*i && ser == call.Serial {
+					// the port repeats the amount the server saw: judged below through the log
+					call.Val += fmt.Sprintf(" (port %d)", p.Port)
+				}
+				cp = append(cp, fmt.Sprintf("%s:%d", p.IP.String(), p.Port))
+			}
+			call.got = len(peers)
+			if call.I%2 == 0 {
+				call.ret, call.snap = peers, cp
+			} else {
+				for _, p := range peers {
+					scribbleBytes(p.IP)
 				}
 			}
-			call.got = peers
 		}
 	}
 	call.End = c.clk.tick()
@@ -479,13 +570,21 @@ func (c *c25Case) perform(oc *ouroboros.Connection, call *c25Call) {
 	}
 }
 
+// hasTxId returns a fresh buffer with the id to ask for: arg > 0 the hash of
+// pool transaction (arg/4, arg%4); -1 the all-zero id; -2 an empty id; other
+// negative values ids no snapshot contains.
 func hasTxId(arg int) []byte {
-	if arg < 0 {
+	switch {
+	case arg == -1:
+		return make([]byte, 32)
+	case arg == -2:
+		return []byte{}
+	case arg < 0:
 		h := make([]byte, 32)
 		h[0], h[1] = 0xEE, byte(-arg)
 		return h
 	}
-	return pool().tx(int64(arg/4), arg%4).Hash
+	return append([]byte(nil), pool().tx(int64(arg/4), arg%4).Hash...)
 }
 
 // failureExpected reports whether the history asks for this call to fail.
@@ -494,6 +593,7 @@ func failureExpected(o c25Op) bool {
 }
 
 type c25Run struct {
+	log     *srvLog
 	calls   []*c25Call
 	events  []*srvEvent
 	hung    bool
@@ -512,10 +612,12 @@ type c25Env struct {
 }
 
 // runHistory executes h on a fresh connection (pair).
-func runHistory(rt *rapid.T, h c25History) *c25Run {
+func runHistory(rt c24TB, planA, planB rawpeer.Plan, h c25History) *c25Run {
 	c := &c25Case{}
-	c.log = &srvLog{clk: &c.clk}
-	planA, planB := genPlan(rt, "a"), genPlan(rt, "b")
+	c.log = &srvLog{clk: &c.clk, base: h.Base, top: h.Top}
+	if h.SlowKind != "" {
+		c.log.slowKind, c.log.slowDelay = h.SlowKind, slowDelay
+	}
 	var env c25Env
 	if h.Family == "lsqraw" {
 		hf, err := dialRaw(false, planA, planB)
@@ -551,6 +653,10 @@ func runHistory(rt *rapid.T, h c25History) *c25Run {
 			srvOpts = []ouroboros.ConnectionOptionFunc{
 				ouroboros.WithLocalStateQueryConfig(lsqCfg), ouroboros.WithLocalTxMonitorConfig(monCfg), ouroboros.WithLocalTxSubmissionConfig(subCfg),
 			}
+			if h.SlowKind != "" {
+				cliOpts = []ouroboros.ConnectionOptionFunc{ouroboros.WithLocalStateQueryConfig(
+					localstatequery.NewConfig(localstatequery.WithQueryTimeout(slowTimeout)))}
+			}
 		}
 		p, err := newPair(ntn, planA, planB, cliOpts, srvOpts)
 		if err != nil {
@@ -584,7 +690,9 @@ func runHistory(rt *rapid.T, h c25History) *c25Run {
 			call := &c25Call{G: g, I: i, Op: o.String(), op: o}
 			record(call)
 			c.perform(env.cli, call)
-			if call.Err != "" && !failureExpected(o) {
+			if call.Err != "" && !failureExpected(o) && h.SlowKind == "" {
+				// (in a slow-query history the callers keep going after the timeout:
+				// whatever they still get back is judged)
 				c.abort.Store(true)
 				return
 			}
@@ -624,6 +732,7 @@ func runHistory(rt *rapid.T, h c25History) *c25Run {
 	}
 	curCase.Store(nil)
 	run.events = c.log.snapshot()
+	run.log = c.log
 	run.cliErrs, run.srvErrs = env.cliErrs(), env.srvErrs()
 	mu.Lock()
 	defer mu.Unlock()
@@ -732,7 +841,7 @@ func judge(h c25History, run *c25Run) (out []c25Verdict, evals int) {
 					// (an era cached from an earlier call of the same session would be a
 					// legitimate design, so only "is an era reply served before this
 					// query" is demanded)
-					ee := bySerial[e.Arg]
+					ee := bySerial[run.log.unstamp("era", uint64(e.Arg))]
 					if ee == nil || ee.Kind != "era" || ee.T >= e.T {
 						bad(cl, "era-not-from-an-era-reply", fmt.Sprintf("the epoch query carried era %d, which is not the stamp of a current-era reply served before the query", e.Arg))
 					}
@@ -753,7 +862,12 @@ func judge(h c25History, run *c25Run) (out []c25Verdict, evals int) {
 				}
 			}
 		case "psh":
-			if e := stamped(cl, "getpeers"); e != nil {
+			if n, _ := cl.got.(int); n == 0 {
+				matchCalls = append(matchCalls, cl) // an empty answer carries no stamp
+			} else if e := stamped(cl, "getpeers"); e != nil {
+				if n != pshCount(int(e.Arg)) {
+					bad(cl, "reply-fields-from-different-replies", fmt.Sprintf("serial %d was sent with %d peers, the call returned %d", cl.Serial, pshCount(int(e.Arg)), n))
+				}
 				if e.Arg != int64(cl.op.Arg) {
 					bad(cl, "reply-to-other-amount", fmt.Sprintf("serial %d answered a request for %d peers; this call asked for %d", cl.Serial, e.Arg, cl.op.Arg))
 				}
@@ -765,7 +879,7 @@ func judge(h c25History, run *c25Run) (out []c25Verdict, evals int) {
 	// what the call returned (maximum bipartite matching)
 	var evs []*srvEvent
 	for _, e := range run.events {
-		if e.Serial == 0 || e.Kind == "submit" {
+		if e.Serial == 0 || e.Kind == "submit" || e.Kind == "getpeers" {
 			evs = append(evs, e)
 		}
 	}
@@ -813,8 +927,34 @@ func judge(h c25History, run *c25Run) (out []c25Verdict, evals int) {
 			}
 		case "ltxsub":
 			return e.Kind == "submit" && e.Arg == cl.tag && e.OK
+		case "psh":
+			return e.Kind == "getpeers" && e.Arg == int64(cl.op.Arg) && pshCount(cl.op.Arg) == 0
 		}
 		return false
+	}
+	// results kept untouched since they were returned must still equal the copy taken then
+	for _, cl := range run.calls {
+		if cl.ret == nil {
+			continue
+		}
+		evals++
+		same := true
+		switch r := cl.ret.(type) {
+		case []byte:
+			same = bytes.Equal(r, cl.snap.([]byte))
+		case *pcommon.Point:
+			sn := cl.snap.(pcommon.Point)
+			same = r.Slot == sn.Slot && bytes.Equal(r.Hash, sn.Hash)
+		case []peersharing.PeerAddress:
+			sn := cl.snap.([]string)
+			same = len(r) == len(sn)
+			for i := 0; same && i < len(r); i++ {
+				same = fmt.Sprintf("%s:%d", r[i].IP.String(), r[i].Port) == sn[i]
+			}
+		}
+		if !same {
+			bad(cl, "reply-changed-after-return", "the returned object no longer equals the copy taken when the call returned")
+		}
 	}
 	evals += len(matchCalls)
 	matchOf := make([]int, len(evs)) // event -> call index
@@ -945,6 +1085,7 @@ func TestC25(t *testing.T) {
 	_ = pool()
 	maxOps := rec.Pick(6, 8)
 	var nHang, nErr atomic.Int64
+	c25Sweep(t, rec, &nHang, &nErr)
 	rec.Check(func(rt *rapid.T) {
 		fam := rapid.SampledFrom([]string{"ntc", "ntc", "ntc", "ntn", "adv", "lsqraw"}).Draw(rt, "family")
 		rec.Class("family_" + fam)
@@ -961,56 +1102,138 @@ func TestC25(t *testing.T) {
 		default:
 			h = genNtN(rt, maxOps, 4)
 		}
-		desc := h.desc()
-		t0 := time.Now()
-		run := runHistory(rt, h)
-		if os.Getenv("VERIF_DEBUG") != "" {
-			fmt.Fprintf(os.Stderr, "C25 %.2fs %s\n", time.Since(t0).Seconds(), desc)
-		}
-		cs := map[string]any{"history": h, "desc": desc, "calls": run.calls, "server_log": run.events, "client_errors": run.cliErrs, "server_errors": run.srvErrs}
-		verdicts, evals := judge(h, run)
-		rec.EvalN(evals)
-		if len(h.Workers) > sendQueueCap {
-			rec.Class(fam + "_goroutines_burst")
-		} else {
-			rec.Class(fmt.Sprintf("%s_goroutines_%d", fam, len(h.Workers)))
-		}
-		judged := 0
-		for _, cl := range run.calls {
-			if cl.End != 0 && cl.Err == "" && cl.op.Kind != "release" {
-				judged++
-				rec.Class("reply_" + cl.op.Proto + "." + cl.op.Kind)
-			}
-			if cl.Err != "" {
-				rec.Class("error_" + cl.op.Proto + "." + cl.op.Kind)
-			}
-		}
-		if judged >= 2 {
-			rec.NonTrivial(desc, map[string]any{"history": desc, "judged_replies": judged, "server_events": len(run.events)})
-		}
-		for _, v := range verdicts {
-			if !rec.Fail(rt, v.key, v.what, cs) {
-				return
-			}
-		}
-		if run.hung {
-			nHang.Add(1)
-			rec.Class("hang")
-			cs["goroutines"] = run.dump
-			rt.Fatalf("history did not finish within the bound (not a C25 verdict)\n%s\n%s", desc, run.dump)
-		}
-		for _, cl := range run.calls {
-			if cl.Err != "" && !failureExpected(cl.op) {
-				nErr.Add(1)
-				if len(verdicts) > 0 {
-					return // consequence of a (known) finding
-				}
-				rt.Fatalf("unexpected error (not a C25 verdict): call g%d#%d %s: %s\nhistory %s\nclient errors %v\nserver errors %v", cl.G, cl.I, cl.Op, cl.Err, desc, run.cliErrs, run.srvErrs)
-			}
-		}
+		c25Play(rec, rt, false, fam, genPlan(rt, "a"), genPlan(rt, "b"), h, &nHang, &nErr)
 	})
 	rec.SetExtra("n_hangs", nHang.Load())
 	rec.SetExtra("n_unexpected_errors", nErr.Load())
+}
+
+// c25Sweep plays fixed sequential histories that touch every special value and
+// every refusal step once per run, independent of the seed.
+func c25Sweep(t *testing.T, rec *evi.Recorder, nHang, nErr *atomic.Int64) {
+	op := func(p, k string, a int) c25Op { return c25Op{Proto: p, Kind: k, Arg: a} }
+	var psh []c25Op
+	for _, a := range []int{0, 1, 2, 3, 4, 8, 255, 254, 0, 0, 1, 252, 5} {
+		psh = append(psh, op("psh", "getpeers", a))
+	}
+	var mon []c25Op
+	mon = append(mon, op("txmon", "sizes", 0)) // auto-acquire: snapshot 1 (one tx)
+	for round := 0; round < 8; round++ {    // snapshots 2..9: capacities 2^32-1 (5) and 0 (7), empty snapshots (4, 8)
+		mon = append(mon,
+			op("txmon", "hastx", 4), op("txmon", "hastx", (round+2)*4), op("txmon", "hastx", -1), op("txmon", "hastx", -2),
+			op("txmon", "nexttx", 0), op("txmon", "nexttx", 0), op("txmon", "nexttx", 0), op("txmon", "nexttx", 0),
+			op("txmon", "sizes", 0), op("txmon", "acquire", 0))
+		if round%3 == 2 {
+			mon = append(mon, op("txmon", "release", 0))
+		}
+	}
+	mon = append(mon, op("txmon", "hastx", 4), op("txmon", "nexttx", 0), op("txmon", "sizes", 0))
+	var lsq []c25Op
+	for _, q := range lsqQueries {
+		lsq = append(lsq, op("lsq", q, 0))
+	}
+	realLsq := append([]c25Op{op("lsq", "acquireP", flavTooOld), op("lsq", "acquireP", flavNotOnChain), op("lsq", "acquireP", flavOK)}, lsq...)
+	realLsq = append(realLsq, op("lsq", "release", 0), op("lsq", "epoch", 0), op("lsq", "release", 0), op("lsq", "acquireP", flavTooOld), op("lsq", "acquireV", 0))
+	realLsq = append(realLsq, lsq...)
+	rawLsq := append([]c25Op{op("lsq", "acquireI", 0), op("lsq", "acquireV", 0), op("lsq", "acquireP", flavOK)}, lsq...)
+	rawLsq = append(rawLsq, op("lsq", "acquireI", 0), op("lsq", "epoch", 0), op("lsq", "release", 0), op("lsq", "acquireP", flavNotOnChain),
+		op("lsq", "acquireP", flavTooOld), op("lsq", "point", 0), op("lsq", "acquireP", flavOK), op("lsq", "era", 0), op("lsq", "release", 0), op("lsq", "start", 0))
+	sub := []c25Op{op("ltxsub", "submit", 1), op("ltxsub", "submit", 0), op("ltxsub", "submit", 0), op("ltxsub", "submit", 1), op("ltxsub", "submit", 1), op("ltxsub", "submit", 0)}
+	mixed := append(append(append([]c25Op{}, sub...), mon[:12]...), lsq...)
+	for _, h := range []c25History{
+		{Family: "ntn", Workers: [][]c25Op{psh}},
+		{Family: "ntc", Workers: [][]c25Op{mon}},
+		{Family: "ntc", Workers: [][]c25Op{sub}},
+		{Family: "ntc", Workers: [][]c25Op{realLsq}},
+		{Family: "ntc", Workers: [][]c25Op{realLsq}, Base: 1<<62 - 1000, Top: true},
+		{Family: "ntc", Workers: [][]c25Op{realLsq}, Base: 1<<32 - 4},
+		{Family: "ntc", Workers: [][]c25Op{mixed}, Base: 65530, Top: true},
+		{Family: "lsqraw", Workers: [][]c25Op{rawLsq}},
+		{Family: "lsqraw", Workers: [][]c25Op{rawLsq}, Base: 1<<62 - 1000, Top: true},
+		{Family: "lsqraw", Workers: [][]c25Op{rawLsq}, Base: 1<<31 - 4},
+	} {
+		c25Play(rec, t, true, h.Family, nil, &rawpeer.SeqPlan{Chunks: []int{3, 0, 64}, Yields: []int{0, 1}}, h, nHang, nErr)
+	}
+}
+
+// c25Play runs one history, judges it and reports (rapid case or sweep entry).
+func c25Play(rec *evi.Recorder, rt c24TB, sweep bool, fam string, planA, planB rawpeer.Plan, h c25History, nHang, nErr *atomic.Int64) {
+	desc := h.desc()
+	t0 := time.Now()
+	run := runHistory(rt, planA, planB, h)
+	if os.Getenv("VERIF_DEBUG") != "" {
+		fmt.Fprintf(os.Stderr, "C25 %.2fs %s\n", time.Since(t0).Seconds(), desc)
+	}
+	cs := map[string]any{"history": h, "desc": desc, "calls": run.calls, "server_log": run.events, "client_errors": run.cliErrs, "server_errors": run.srvErrs}
+	verdicts, evals := judge(h, run)
+	rec.EvalN(evals)
+	if sweep {
+		rec.Class("sweep_" + fam)
+	} else if len(h.Workers) > sendQueueCap {
+		rec.Class(fam + "_goroutines_burst")
+	} else {
+		rec.Class(fmt.Sprintf("%s_goroutines_%d", fam, len(h.Workers)))
+	}
+	if h.Base != 0 || h.Top {
+		rec.Class("special_stamp_values")
+	}
+	judged := 0
+	for _, cl := range run.calls {
+		if cl.End != 0 && cl.Err == "" && cl.op.Kind != "release" {
+			judged++
+			rec.Class("reply_" + cl.op.Proto + "." + cl.op.Kind)
+			if cl.op.Proto == "psh" && pshCount(cl.op.Arg) == 0 {
+				rec.Class("reply_psh.empty")
+			}
+			if cl.op.Kind == "hastx" && cl.op.Arg < 0 {
+				rec.Class(fmt.Sprintf("reply_txmon.hastx_special_id(%d)", cl.op.Arg))
+			}
+		}
+		if cl.Err != "" {
+			rec.Class("error_" + cl.op.Proto + "." + cl.op.Kind)
+		}
+	}
+	if judged >= 2 {
+		rec.NonTrivial(desc, map[string]any{"history": desc, "judged_replies": judged, "server_events": len(run.events)})
+	}
+	for _, v := range verdicts {
+		if sweep {
+			if !rec.Violation(v.key, v.what, cs) {
+				return
+			}
+			continue
+		}
+		if !rec.Fail(rt, v.key, v.what, cs) {
+			return
+		}
+	}
+	if run.hung {
+		nHang.Add(1)
+		rec.Class("hang")
+		cs["goroutines"] = run.dump
+		rt.Fatalf("history did not finish within the bound (not a C25 verdict)\n%s\n%s", desc, run.dump)
+	}
+	if h.SlowKind != "" {
+		// the slow query runs into the client's timeout: every error after that
+		// (and, on a loaded machine, before it) is the expected teardown
+		rec.Class("slow_query_history")
+		for _, cl := range run.calls {
+			if cl.Err != "" {
+				rec.Class("slow_query_history_call_failed")
+				break
+			}
+		}
+		return
+	}
+	for _, cl := range run.calls {
+		if cl.Err != "" && !failureExpected(cl.op) {
+			nErr.Add(1)
+			if len(verdicts) > 0 {
+				return // consequence of a (known) finding
+			}
+			rt.Fatalf("unexpected error (not a C25 verdict): call g%d#%d %s: %s\nhistory %s\nclient errors %v\nserver errors %v", cl.G, cl.I, cl.Op, cl.Err, desc, run.cliErrs, run.srvErrs)
+		}
+	}
 }
 
 // c25Adversarial is filled in by c25_adversarial_test.go.
